@@ -1,6 +1,8 @@
 """Checker self-test (thorough tier): the quick rules are run against scratch copies of /repo/src -
-(a) the `ast.unparse` twin of every file (must stay silent), (b) every stored seeded change of the property
-(must be reported).  Evidence about the checker; it does not decide the property."""
+(a) the `ast.unparse` twin of every file (must stay silent), (b) every stored breaking change of the property
+(must be reported), (c) every stored behaviour-preserving refactor of ANY property (meta.json kind = benign; must stay
+silent: a refactor of the parser written for one property is seen by every check that reads the parser).
+Evidence about the checker; it does not decide the property."""
 from __future__ import annotations
 
 import ast
@@ -45,25 +47,38 @@ def run(prop: str) -> dict:
                     with open(p, "w", encoding="utf-8") as fh:
                         fh.write(ast.unparse(ast.parse(s)) + "\n")
         jobs = [("twin", twin, None)]
-        # (b) seeded changes
-        for sd in sorted(glob.glob(os.path.join(VERIF, "seeded", f"{prop}-*"))):
+        # (b) seeded changes of this property, (c) benign refactors of every property
+        def _kind(sd_):
+            try:
+                with open(os.path.join(sd_, "meta.json")) as fh:
+                    return json.load(fh).get("kind", "breaking")
+            except Exception:
+                return "breaking"
+        benign = [sd for sd in sorted(glob.glob(os.path.join(VERIF, "seeded", "C*-*"))) if os.path.isdir(sd) and _kind(sd) == "benign"]
+        own = [sd for sd in sorted(glob.glob(os.path.join(VERIF, "seeded", f"{prop}-*"))) if os.path.isdir(sd) and _kind(sd) != "benign"]
+        out["benign"] = []
+        for sd in own + benign:
             root = os.path.join(base, os.path.basename(sd))
             os.makedirs(root)
             _copy_src(root)
             ap = subprocess.run(["git", "apply", "--unsafe-paths", os.path.join(sd, "patch.diff")], cwd=root, capture_output=True, text=True)
             if ap.returncode != 0:
-                out["seeds"].append({"seed": os.path.basename(sd), "applied": False, "note": ap.stderr[-160:]})
+                (out["benign"] if sd in benign else out["seeds"]).append({"seed": os.path.basename(sd), "applied": False, "note": ap.stderr[-160:]})
                 continue
             jobs.append((os.path.basename(sd), root, sd))
-        with ThreadPoolExecutor(max_workers=8) as ex:
+        with ThreadPoolExecutor(max_workers=12) as ex:
             results = list(ex.map(lambda j: _run(prop, j[1]), jobs))
         for (name, _root, sd), (rc, first) in zip(jobs, results):
             if name == "twin":
                 out["twin"] = {"exit": rc, "silent": rc == 0, "first": first}
+            elif sd in benign:
+                out["benign"].append({"seed": name, "applied": True, "exit": rc, "silent": rc == 0, "first": first})
             else:
                 out["seeds"].append({"seed": name, "applied": True, "exit": rc, "reported": rc != 0, "first": first})
     finally:
         shutil.rmtree(base, ignore_errors=True)
     out["seeds_reported"] = sum(1 for s in out["seeds"] if s.get("reported"))
     out["seeds_total"] = len(out["seeds"])
+    out["benign_silent"] = sum(1 for s in out["benign"] if s.get("silent"))
+    out["benign_total"] = len(out["benign"])
     return out
